@@ -483,8 +483,15 @@ func uniqueDirs(a, b string) []string {
 // flush of the recovered memtables, MANIFEST appends, file deletions) yields a
 // second-level kill image, i.e. the state a second crash during recovery leaves.
 func (r *Run) openTracked(opt badger.Options, managed bool, dirs []string, img *Image) (db *badger.DB, err error, t2 *DiskTracker) {
-	e := NewEngine(Sched{}, []string{"client", "flusher", "compactor", "subcompact", "builder"})
-	e.Sequential = true
+	// two recoveries in three follow a seeded random schedule (lock acquisitions are
+	// preemption points), the third the sequential default
+	sched := Sched{}
+	seq := img.Event%3 == 0
+	if !seq {
+		sched = Sched{TailSeed: r.c.Cfg.SkipSeed*31 + uint64(img.Event), Preempt: 30, LockYield: 40}
+	}
+	e := NewEngine(sched, []string{"client", "flusher", "compactor", "subcompact", "builder", "db"})
+	e.Sequential = seq
 	e.Install()
 	vhook.NowFn = func() (time.Time, bool) { return time.Now(), true }
 	t2 = NewDiskTracker(dirs, false, 1, 16)
